@@ -233,11 +233,29 @@ def translate(repo):
     imod = ast.parse(open(f"{repo}/{INIT}").read())
     sn = find_def(imod, "sample_normal")
     inner = {n.name: n for n in sn.body if isinstance(n, ast.FunctionDef)}
-    want_in = "if bounds is None:\n    return True\nelse:\n    return np.all(x >= bounds[:, 0]) and np.all(x <= bounds[:, 1])"
-    want_cr = "x = sample()\nwhile not in_bounds(x):\n    x = sample()\nreturn x"
-    got_in = "\n".join(ast.unparse(s_) for s_ in inner.get("in_bounds", ast.parse("pass")).body)
-    got_cr = "\n".join(ast.unparse(s_) for s_ in inner.get("create", ast.parse("pass")).body)
-    if got_in != want_in or got_cr != want_cr or ast.unparse(sn.body[-1]) != "return create":
+    from .lazy import return_paths
+    ok = "in_bounds" in inner and "create" in inner and ast.unparse(sn.body[-1]) == "return create"
+    if ok:
+        ib = inner["in_bounds"]
+        xn = ib.args.args[0].arg if len(ib.args.args) == 1 else "?"
+        seen = {}
+        try:
+            for conds, e_ in return_paths(ib, INIT):
+                if len(conds) != 1 or ast.unparse(conds[0][0]) not in ("bounds is None", "bounds is not None"):
+                    ok = False
+                    break
+                seen[(ast.unparse(conds[0][0]) == "bounds is None") == conds[0][1]] = ast.unparse(e_)
+        except Unsupported:
+            ok = False
+        ok = ok and seen == {True: "True", False: f"np.all({xn} >= bounds[:, 0]) and np.all({xn} <= bounds[:, 1])"}
+    if ok:
+        cb = [s_ for s_ in inner["create"].body if not (isinstance(s_, ast.Expr) and isinstance(s_.value, ast.Constant))]
+        ok = len(cb) == 3 and isinstance(cb[0], ast.Assign) and isinstance(cb[0].targets[0], ast.Name) and ast.unparse(cb[0].value) == "sample()"
+        if ok:
+            vn = cb[0].targets[0].id
+            ok = isinstance(cb[1], ast.While) and not cb[1].orelse and ast.unparse(cb[1].test) == f"not in_bounds({vn})" and [ast.unparse(x) for x in cb[1].body] == [f"{vn} = sample()"] \
+                and ast.unparse(cb[2]) == f"return {vn}"
+    if not ok:
         raise Unsupported(f"{INIT}:{sn.lineno}: sample_normal is no longer `draw until every coordinate is inside [bounds[:,0], bounds[:,1]]`")
     out.append("Definition gen_in_bounds_gene (x lo hi : f64) : bool :=\n  (andb (fge x lo) (fle x hi)).\n")
     fns.append(f"{INIT}:sample_normal[in_bounds, create]")
